@@ -81,8 +81,8 @@ def special_values(draw, spec, cfg, parent="root"):
         if not tg.is_dynamic(spec["item"]) and draw(st.integers(0, 7)) == 0:
             ndyn = sum(1 for d in spec["shape"] if d is None)
             if parent in ("root", "struct") or ndyn == 1:
-                return {"$dims": [draw(tg.dyn_extents(cfg)) for _ in range(ndyn)]}
-        shape = [draw(tg.dyn_extents(cfg)) if d is None else d for d in spec["shape"]]
+                return {"$dims": tg.array_shape(draw, spec, cfg) if spec.get("huge") else [draw(tg.dyn_extents(cfg)) for _ in range(ndyn)]}
+        shape = tg.array_shape(draw, spec, cfg)
         n = math.prod(shape)
         return {"shape": shape, "flat": tg.pooled(draw, n, lambda: special_values(draw, spec["item"], cfg, "array"))}
     if k == "ref":
@@ -104,7 +104,8 @@ def cases(draw, tier):
     value = special_values(draw, spec, cfg)
     forms = draw(st.lists(st.integers(0, 11), max_size=12))
     p = draw(pl.placements())
-    return {"type": spec, "value": value, "forms": forms, "placement": p}
+    # xobject-form inputs live in a second buffer of the same context, or (one case in three) of another context
+    return {"type": spec, "value": value, "forms": forms, "placement": p, "xsrc": draw(st.sampled_from(["same", "same", "other"]))}
 
 
 def strategy(tier):
@@ -151,6 +152,7 @@ def build(case):
         return node, r, None, None, None, labels
     buf, tr = r
     env = mat.Env(buf, ctx)
+    env.foreign = case.get("xsrc") == "other"
     kw = placement_kwargs(p, ctx, buf, size)
     obj = sut(mat.construct, node, value, mat.Forms(case["forms"]), env, **kw)
     labels |= {"form:" + f for f in env.forms_used}
